@@ -151,6 +151,10 @@ fn decode_body(cfg: DevCfg, activation: Activation, seed: u64, it: &mut dyn Iter
             }
             4 if v2 && op & 0x20 != 0 => steps.push(Step::JoinSilence(1 + (nx().unwrap_or(0) as u16 % 90))),
             4 if v2 && op & 0x10 != 0 => steps.push(Step::SetCreds(op >> 6)),
+            4 if v2 && op & 0x08 != 0 => {
+                let k = nx().unwrap_or(0);
+                steps.push(Step::SetSession { alt: op & 0x40 != 0, fcnt_up: [0u32, 3, 0xFFFF, 0xFFFF_FFFE][(k & 3) as usize], fcnt_down: [None, Some(0u32), Some(7), Some(0xFFFF)][((k >> 2) & 3) as usize] });
+            }
             4 => {
                 let r = ja(&mut *nx);
                 steps.push(Step::Join(if op & 0x40 != 0 { RxPlan::rx2(r) } else { RxPlan::rx1(r) }));
